@@ -10,7 +10,7 @@ use vcore::driver::{BothBuilds, Ctx, Outcome, PropDef, Violation};
 use vcore::ref_loc::{self, Lang, Loc, LANGS, LOCS};
 use vcore::{util, Tally};
 
-const COMPONENTS: [&str; 8] = ["m", "GameData.bin.lz", "a b", "日本", "x.y", "@E", "s_", " "];
+const COMPONENTS: [&str; 9] = ["m", "GameData.bin.lz", "a b", "日本", "x.y", "@E", "s_", " ", "b\\c.bin"];
 const DEGENERATE: [&str; 7] = ["", "/", "..", ".", "a/..", "../a/..", "//"];
 
 fn paths(max_depth: usize) -> Vec<String> {
